@@ -1148,3 +1148,33 @@ def rule_R8(F, R):
             R.violation("R8", b["owner_fn"], "write-after-tail-blanked", "set_working_set_item at %s can run after the tail of the working set was blanked at %s: on the in-memory storage the blanked tail is trimmed at once, so a following write to an index that was the last occupied-or-blank slot fails (`Index N is not in the working set`) and the rebuild is abandoned" % (loc(c.term(later[0])["sp"]), loc(t["sp"])), where(b, i))
         else:
             R.ok("R8", "tail blanking is the last group of writes", where(b, i))
+
+
+def rule_L2(F, R):
+    R.begin("L2", "a batch handed to Replica::commit_operations reaches TaskDb::commit_operations whole and once: the call is not inside a loop and its operations argument is the caller's batch, not a slice of it (each TaskDb commit is one transaction: slicing makes a large batch take effect in parts)")
+    n = 0
+    for p, b in sorted(F.bodies.items()):
+        im = b.get("impl") or {}
+        if b["kind"] != "AssocFn" or not im.get("self", "").startswith("replica::Replica<") or im.get("trait"):
+            continue
+        body = F.real_body(p)
+        if body is None:
+            continue
+        c = cfg_of(body)
+        calls = calls_matching(c, r"^taskdb::TaskDb::<S>::commit_operations")
+        if not calls:
+            continue
+        fl = flow_of(body)
+        loops = c.loops()
+        for (i, t) in calls:
+            n += 1
+            in_loop = any(i in lb for lb in loops.values())
+            s = fl.slice_operand(t["args"][1])
+            cut = sorted({x.split("::")[-1] for x in s.call_names() if re.search(r"::(split_off|drain|truncate|chunks|chunks_exact|split_at|take|skip|step_by|pop|remove|retain|filter)$", x)})
+            if in_loop:
+                R.violation("L2", p, "commit-in-loop", "TaskDb::commit_operations is called inside a loop: the batch is committed in several transactions, and a failure in a later one leaves the earlier ones in effect", where(body, i))
+            elif cut:
+                R.violation("L2", p, "batch-sliced:" + cut[0], "the operations handed to TaskDb::commit_operations pass through %s: not the whole batch is committed in this transaction" % cut[0], where(body, i))
+            else:
+                R.ok("L2", "%s hands its whole batch to one TaskDb commit" % p.split("::")[-1], where(body, i))
+    R.floor("L2", "Replica methods calling TaskDb::commit_operations", n, 1)
